@@ -144,11 +144,18 @@ func RunReplay(lines []string, work string, obs Observer) (*Sim, error) {
 			s.Time = a.T
 			s.BeginWith(a)
 		case "deliver":
-			bz := unhex(ws[1])
+			var bz []byte
+			if len(ws) > 1 {
+				bz = unhex(ws[1])
+			}
 			o, _ := s.Deliver(bz)
 			s.After(bz, o)
 		case "check":
-			s.Check(unhex(ws[1]))
+			var bz []byte
+			if len(ws) > 1 {
+				bz = unhex(ws[1])
+			}
+			s.Check(bz)
 		case "end":
 			s.End()
 		case "commit":
